@@ -96,7 +96,7 @@ def make_lib(case, d):
         # cannot resolve it at import, which is a missing dependency, not a generator defect -> no strings there
         nostr = "-python-native" in case["opts"] and "-string" not in case["opts"]
         lib = libgen.generate(rng, "liba", size=case.get("size", 1.0), strings=not nostr,
-                              oddities="nofwd" if case.get("oddities") else False, ext=True)
+                              oddities="nofwd" if case.get("oddities") else False, ext=True, enumalias=True)
     lib.write(d)
     return lib
 
